@@ -163,7 +163,8 @@ func init() {
 // that are never touched except for their first and last kilobyte; only the release-type builds run this.
 func c09HugeSource(w *mon.W, _ int) {
 	for _, n := range []int{1<<28 - 8, 1 << 28, 1<<28 + 8, 1 << 29} {
-		buf := make([]byte, n)
+		buf, release := hugeZeroBytes(n)
+		defer release()
 		r := w.Rng
 		for i := 0; i < 1024; i++ {
 			buf[i] = r.Byte()
